@@ -724,6 +724,37 @@ def paired_runs(ctx):
         rng.shuffle(order)
         pair('extra-genes', vany, vany, True, dict(query=norm, normalization='log2CPM'),
              dict(query=q2[:, order], genes=[genes2[j] for j in order], normalization='log2CPM'))
+        # (d') the same relation under a very small memory budget, many cells, a chunk size larger than the query and
+        # many extra genes: the chunking (hence the per-chunk generator) must not depend on the width of the file
+        if k % 3 == 0:
+            sc2 = pipeline.gen_scenario(rng, max_levels=3, max_leaves=6, n_cells=rng.randrange(12, 21))
+            used2 = set(g for v in sc2.markers.values() for g in v)
+            q0 = np.array([[rng.randrange(0, 97) / 8.0 for _ in sc2.query_genes] for _ in sc2.cell_ids])
+            extra2 = [300 + j for j in range(rng.randrange(25, 45))]
+            genes_b = list(sc2.query_genes) + extra2
+            qb = np.hstack([q0, np.array([[rng.randrange(0, 97) / 8.0 for _ in extra2] for _ in sc2.cell_ids])])
+            vsm = paired.base_var(rng, sc2, factor=0.5)
+            vsm.update(chunk_size=50, n_processors=2, bootstrap_iteration=5, max_gb=rng.choice([2e-6, 1e-6, 5e-7]))
+            ctx.count(('c07', k, 'extra-genes-small-budget'), nontrivial=True)
+            ctx.dist('relation', 'extra-genes-small-budget')
+            ra = paired.run_once(ctx, sc2, f'sa{k}', query=q0, normalization='log2CPM', **vsm)
+            rb = paired.run_once(ctx, sc2, f'sb{k}', query=qb, genes=genes_b, normalization='log2CPM', **vsm)
+            dd = {'kind': 'paired-run', 'relation': 'extra-genes-small-budget', 'tree': sc2.tree.data, 'markers': sc2.markers,
+                  'cell_ids': sc2.cell_ids, 'query': q0.tolist(), 'query_genes': sc2.query_genes, 'extra_genes': extra2,
+                  'ref_genes': sc2.ref_genes, 'means': {str(a): b for a, b in sc2.means.items()}, 'config': vsm}
+            if not ra['ok'] or not rb['ok']:
+                dd['class'] = 'c07-run-raises'
+                dd['error'] = ra['error'] or rb['error']
+                ctx.violation(f'extra-genes-small-budget: a run raised {dd["error"]}', dd)
+            else:
+                a, b = paired.by_cell(ra), paired.by_cell(rb)
+                for cid in sc2.cell_ids:
+                    diff = paired.compare_records(a[cid], b[cid], sc2.tree.levels, bitwise=True)
+                    if diff:
+                        ctx.disagreements_checked += 1
+                        dd['class'] = 'c07-extra-genes-small-budget'
+                        ctx.violation(f'extra genes under a small memory budget: cell {cid}: {diff}', dd)
+                        break
         # (e) negative raw value
         neg = raw.copy()
         if rng.random() < 0.5:
